@@ -424,6 +424,22 @@ pub fn run_scenarios(path: &str, out_prefix: &str, server_bin: &str, workdir: &s
         // ---- health check: k simultaneous connections, while time service continues
         if let (Some(hp), Some(k)) = (sp.hc_port, sc["hc_conns"].as_u64()) {
             if sp.alive() {
+                // connections that their peer RESETS while they still wait in the accept queue (the process is suspended
+                // meanwhile, so that no worker can accept them first): accept() hands them out all the same
+                if let Some(r) = sc["hc_reset"].as_u64() {
+                    unsafe { libc::kill(sp.pid() as i32, libc::SIGSTOP); }
+                    for _ in 0..r {
+                        if let Ok(c) = TcpStream::connect_timeout(&format!("127.0.0.1:{}", hp).parse().unwrap(), Duration::from_millis(300)) {
+                            use std::os::unix::io::AsRawFd;
+                            let l = libc::linger { l_onoff: 1, l_linger: 0 };
+                            unsafe { libc::setsockopt(c.as_raw_fd(), libc::SOL_SOCKET, libc::SO_LINGER, &l as *const libc::linger as *const libc::c_void, std::mem::size_of::<libc::linger>() as libc::socklen_t); }
+                            drop(c);
+                        }
+                    }
+                    std::thread::sleep(Duration::from_millis(30));
+                    unsafe { libc::kill(sp.pid() as i32, libc::SIGCONT); }
+                    std::thread::sleep(Duration::from_millis(150));
+                }
                 let (connected, ok200) = health_check(hp, k as usize, 1500);
                 let ex = probe(sp.port, 8, 1, &mut rng, &srv, 800);
                 let answered = ex.iter().filter(|e| !e.replies.is_empty()).count();
